@@ -38,15 +38,15 @@ MODULES = [
 LIST_CLASSES = ("AttrInt64s", "AttrFloat32s", "AttrStrings", "AttrTensors")
 ALL_CLASSES = ("AttrFloat32", "AttrInt64", "AttrString", "AttrTensor", "AttrGraph", "AttrType", "AttrDtype") + LIST_CLASSES
 ITERABLE_MARK = ("Iterable", "Sequence", "List", "Tuple", "list", "tuple")
-SCAN_VERSION = "4"
+SCAN_VERSION = "5"
 
 
 def _scan_module(mid: str, text: str) -> dict:
-    rows, irregular, multi = [], [], []
+    rows, irregular, multi, variadics = [], [], [], []
     try:
         mod = ast.parse(text)
     except Exception as e:  # noqa: BLE001
-        return {"rows": [], "irregular": [f"{mid}: unparsable ({type(e).__name__})"], "multi": []}
+        return {"rows": [], "irregular": [f"{mid}: unparsable ({type(e).__name__})"], "multi": [], "variadics": []}
     for fn in mod.body:
         if not isinstance(fn, ast.FunctionDef):
             continue
@@ -60,6 +60,24 @@ def _scan_module(mid: str, text: str) -> dict:
         for node in ast.walk(fn):
             if isinstance(node, ast.Name) and isinstance(node.ctx, ast.Load) and node.id in params:
                 loads[node.id] = loads.get(node.id, 0) + 1
+        for call in ast.walk(fn):
+            if isinstance(call, ast.Call) and isinstance(call.func, ast.Attribute) and call.func.attr == "Inputs" \
+                    and isinstance(call.func.value, ast.Name):
+                for kw in call.keywords:
+                    pa = params.get(kw.value.id) if isinstance(kw.value, ast.Name) else None
+                    ann = ast.unparse(pa.annotation) if pa is not None and pa.annotation is not None else ""
+                    if "Sequence[Var]" in ann:
+                        variadics.append({"mod": mid, "ctor": fn.name, "opcls": call.func.value.id, "field": kw.arg,
+                                          "param": kw.value.id, "loads": loads.get(kw.value.id, 0), "bare": True})
+                    elif kw.arg is not None and not isinstance(kw.value, ast.Name):
+                        inner = [n.id for n in ast.walk(kw.value) if isinstance(n, ast.Name) and n.id in params
+                                 and params[n.id].annotation is not None and "Sequence[Var]" in ast.unparse(params[n.id].annotation)]
+                        for q in inner:  # a variadic parameter that is transformed before it reaches the Inputs dataclass
+                            variadics.append({"mod": mid, "ctor": fn.name, "opcls": call.func.value.id, "field": kw.arg,
+                                              "param": q, "loads": loads.get(q, 0), "bare": False})
+        seqvars = {a for a, pa in params.items() if pa.annotation is not None and "Sequence[Var]" in ast.unparse(pa.annotation)}
+        for q in sorted(seqvars - {v["param"] for v in variadics if v["ctor"] == fn.name}):
+            variadics.append({"mod": mid, "ctor": fn.name, "opcls": "", "field": "", "param": q, "loads": loads.get(q, 0), "bare": False})
         for call in ast.walk(fn):
             if not (isinstance(call, ast.Call) and isinstance(call.func, ast.Attribute) and call.func.attr == "Attributes"
                     and isinstance(call.func.value, ast.Name)):
@@ -116,7 +134,7 @@ def _scan_module(mid: str, text: str) -> dict:
                 rows.append(row)
                 if (cls in LIST_CLASSES or any(k in ann for k in ITERABLE_MARK)) and loads.get(p, 0) != 1:
                     multi.append(f"{where}: parameter read {loads.get(p, 0)} times")
-    return {"rows": rows, "irregular": irregular, "multi": multi}
+    return {"rows": rows, "irregular": irregular, "multi": multi, "variadics": variadics}
 
 
 def scan() -> dict:
@@ -126,7 +144,7 @@ def scan() -> dict:
         cache = json.loads(cache_file.read_text())
     except Exception:  # noqa: BLE001
         cache = {}
-    new_cache, rows, irregular, multi, per_mod = {}, [], [], [], {}
+    new_cache, rows, irregular, multi, per_mod, variadics = {}, [], [], [], {}, []
     root = REPO / "src" / "spox" / "opset"
     for mid, rel, _ in MODULES:
         try:
@@ -141,13 +159,14 @@ def scan() -> dict:
         rows += res["rows"]
         irregular += res["irregular"]
         multi += res["multi"]
+        variadics += res.get("variadics", [])
         per_mod[mid] = len(res["rows"])
     try:
         cache_file.parent.mkdir(exist_ok=True)
         cache_file.write_text(json.dumps(new_cache))
     except Exception:  # noqa: BLE001
         pass
-    return {"rows": rows, "irregular": irregular, "multi": multi, "per_mod": per_mod}
+    return {"rows": rows, "irregular": irregular, "multi": multi, "per_mod": per_mod, "variadics": variadics}
 
 
 def shapes(rows) -> list:
@@ -335,6 +354,13 @@ def emit(info: dict) -> str:
         "",
         "/-- attribute rows per module (5 x ai.onnx, 3 x ai.onnx.ml; only what the module itself defines) -/",
         "def perModule : List (String × Nat) := " + lean_list([f"({lean_str(m)}, {n})" for m, n in info["per_mod"].items()]),
+        "",
+        "/-- every constructor parameter typed `Sequence[Var]` (variadic input) of the 8 modules: (module.constructor.parameter,",
+        "    handed to the `Inputs` dataclass as a bare parameter) - a bare one lands in `BaseVars.__post_init__` (capture row",
+        "    `BaseVars.variadic`); anything else (wrapped, filtered, not handed on) is listed with `false` -/",
+        "def variadics : List (String × Bool) := [",
+        ",\n".join(f"  ({lean_str(v['mod'] + '.' + v['ctor'] + '.' + v['param'])}, {lean_bool(v['bare'])})" for v in info.get("variadics", [{"mod": "<none>", "ctor": "", "param": "", "bare": False}])),
+        "]",
         "",
         "/-- live cross-check (inspect.signature + dataclass fields of the imported modules) disagreements -/",
         f"def liveMismatches : List String := {lean_list([lean_str(x) for x in info.get('live_mismatches', ['<not run>'])[:20]])}",
